@@ -18,6 +18,10 @@ NOTES.update({
  "C08r5B": "not covered: the early deal-in needs the table to collapse to one playing seat while the joiner is still waiting, i.e. other players move between the join and the hand in question - outside the hypothesis 'other players staying put' of the deal-in clause; the position clauses still hold after the change",
  "C14r5A": "not covered: Deal() returning a window of the deck changes no value by itself; it shows only when the caller re-uses the deck slice of a finished hand for the next one, or appends to a returned list - aliasing between the caller's own objects, which the monitors (working on the published state and on JSON copies) do not provoke",
 })
+NOTES.update({
+ "C05r6B": "not covered: needs a table whose card demand exceeds the deck (36 cards, 4 hole cards, 8-9 seats); the unchanged engine panics on such a table at the turn, so the workloads only generate tables the deck can serve (stated assumption of C05/C06) and the clamp is never reached",
+ "C17r6A": "not covered: the button jump needs zero playable seats before the move (everybody who played left or sits out, only newcomers on closed seats remain); C17 states where the button goes only 'when at least two players were able to play before moving', and the C08 position clauses still hold after the change",
+})
 rows = []
 for rf in sorted(glob.glob(f"{DST}/results/*.json")):
     key = os.path.basename(rf)[:-5]
